@@ -1,4 +1,5 @@
 import HotstuffModel.Model.Types
+import HotstuffModel.Generated.Guards
 /-
 The five `verify` functions of consensus/src/messages.rs, statement by statement.
 -/
@@ -15,14 +16,14 @@ def checkSigners (c : Committee) : List Nat → List Nat → Nat → Except VErr
   | [], _, w => .ok w
   | n :: rest, used, w =>
     if used.contains n then .error .authorityReuse
-    else if c.stake n == 0 then .error .unknownAuthority
+    else if !Gen.certSignerStake (c.stake n) then .error .unknownAuthority
     else checkSigners c rest (n :: used) (w + c.stake n)
 
 def QC.verify (c : Committee) (q : QC) : Except VErr Unit :=
   match checkSigners c q.signers [] 0 with
   | .error e => .error e
   | .ok w =>
-    if w < c.quorum then .error .qcRequiresQuorum
+    if !Gen.qcVerifyQuorum w c.quorum then .error .qcRequiresQuorum
     else if q.votes.all (fun v => v.2.valid q.content v.1) then .ok ()
     else .error .invalidSignature
 
@@ -30,23 +31,23 @@ def TC.verify (c : Committee) (t : TC) : Except VErr Unit :=
   match checkSigners c t.signers [] 0 with
   | .error e => .error e
   | .ok w =>
-    if w < c.quorum then .error .tcRequiresQuorum
+    if !Gen.tcVerifyQuorum w c.quorum then .error .tcRequiresQuorum
     else if t.votes.all (fun v => v.2.1.valid (.timeout t.round v.2.2) v.1) then .ok ()
     else .error .invalidSignature
 
 def Vote.verify (c : Committee) (v : Vote) : Except VErr Unit :=
-  if c.stake v.author == 0 then .error .unknownAuthority
+  if !Gen.voteAuthorStake (c.stake v.author) then .error .unknownAuthority
   else if v.sig.valid v.content v.author then .ok ()
   else .error .invalidSignature
 
 def Timeout.verify (c : Committee) (t : Timeout) : Except VErr Unit :=
-  if c.stake t.author == 0 then .error .unknownAuthority
+  if !Gen.timeoutAuthorStake (c.stake t.author) then .error .unknownAuthority
   else if !t.sig.valid t.content t.author then .error .invalidSignature
   else if t.highQC.isGenesis then .ok ()
   else t.highQC.verify c
 
 def Block.verify (c : Committee) (b : Block) : Except VErr Unit :=
-  if c.stake b.author == 0 then .error .unknownAuthority
+  if !Gen.blockAuthorStake (c.stake b.author) then .error .unknownAuthority
   else if !b.sig.valid (.block b.digest) b.author then .error .invalidSignature
   else
     match (if b.qc.isGenesis then .ok () else b.qc.verify c) with
